@@ -130,8 +130,8 @@ func runCorruptions(t fataler, raw []byte, deleted, allVersions bool) {
 		if c.field != "truncation" && bytes.Equal(c.in, raw) {
 			continue // the replacement happened to be the original value
 		}
-		if c.field == "version" && !allVersions && len(c.in) > 0 && c.in[0] > 3 && c.in[0] < 0x80 {
-			continue // the 250 one-byte wrong versions are enumerated by TestExhaustiveCorruptions only
+		if c.field == "version" && !allVersions && len(c.in) > 0 && c.in[0] > 3 && c.in[0] != 0x7f && c.in[0] != 0x80 && c.in[0] != 0x81 && c.in[0] != 0xff {
+			continue // all 256 one-byte versions are enumerated by TestExhaustiveCorruptions only
 		}
 		o, w := checkTotal(t, c.in)
 		checkReserialize(t, c.in, o, w)
